@@ -159,16 +159,17 @@ type BlockedInfo struct {
 
 // Sched is the scheduler of one execution.
 type Sched struct {
-	tasks    []*Task
-	sorted   []*Task
-	running  *Task // the task holding the baton
-	main     *Task // the last non-free task that ran: its continuation is the default, leaving it is a preemption
-	ctl      chan struct{}
-	endCh    chan bool
-	altBuf   []Alt
-	maxSteps int
-	aborting bool
-	wg       sync.WaitGroup
+	tasks     []*Task
+	sorted    []*Task
+	running   *Task // the task holding the baton
+	main      *Task // the last non-free task that ran: its continuation is the default, leaving it is a preemption
+	ctl       chan struct{}
+	endCh     chan bool
+	altBuf    []Alt
+	maxSteps  int
+	parkClock int
+	aborting  bool
+	wg        sync.WaitGroup
 
 	Trace   []Step
 	Choices []uint8
@@ -254,6 +255,7 @@ const (
 	kChoose
 	kTimer
 	kYield
+	kPark
 )
 
 func (s *Sched) spawn(parent *Task, name string, lib bool, fn func()) *Task {
@@ -386,17 +388,58 @@ func Yield(label string) {
 
 func (s *Sched) enabledAlts(buf []Alt) []Alt {
 	buf = buf[:0]
+	var woken *Task
+	wokenAt, wokenFrom, wokenTo := 0, 0, 0
+	one := func(t *Task) {
+		n0 := len(buf)
+		buf = t.pend.enabled(s, t, buf)
+		if o, ok := t.pend.(*opSelect); ok && !o.hasDefault {
+			switch {
+			case len(buf) == n0:
+				if o.parkedAt == 0 && !rendezvousPending(s, t, o) {
+					s.parkClock++
+					o.parkedAt = s.parkClock
+					t.tick(kPark, 0, 0) // going to sleep is an observation ("nothing ready yet")
+				}
+			case o.parkedAt > 0 && (woken == nil || o.parkedAt < wokenAt):
+				woken, wokenAt, wokenFrom, wokenTo = t, o.parkedAt, n0, len(buf)
+			}
+		}
+	}
 	// running task first
 	if r := s.main; r != nil && !r.finished && r.pend != nil {
-		buf = r.pend.enabled(s, r, buf)
+		one(r)
 	}
 	for _, t := range s.sorted {
 		if t == s.main || t.finished || t.pend == nil {
 			continue
 		}
-		buf = t.pend.enabled(s, t, buf)
+		one(t)
+	}
+	if woken != nil {
+		// a sleeping select that has been made ready is committed to that case now
+		_ = wokenTo
+		k := 0
+		for i := range buf {
+			if buf[i].T == woken && i >= wokenFrom {
+				buf[k] = buf[i]
+				k++
+			}
+		}
+		buf = buf[:k]
 	}
 	return buf
+}
+
+// rendezvousPending reports whether a case of o could complete by rendezvous with a
+// partner that is enumerated from the other side (a send whose receiver is waiting).
+func rendezvousPending(s *Sched, t *Task, o *opSelect) bool {
+	for _, c := range o.cases {
+		if c.isSend() && hasPartner(s, t, c) {
+			return true
+		}
+	}
+	return false
 }
 
 // Key returns the happens-before state key of the current cut.
